@@ -61,6 +61,8 @@ type rpkiState struct {
 	downAt     map[int]time.Duration // cache idx -> instant gobgp lost the connection (0 = up)
 	serial     int
 	routes     map[string]*annRoute
+	polActive  bool // the global import policy rejects routes whose validation state is Invalid
+	checkPol   bool // this comparison follows a soft reset in: the policy verdicts are current
 }
 
 func (w *simWorld) rpki() *rpkiState { return w.fam.(*rpkiState) }
@@ -70,6 +72,14 @@ func cacheAddr(i int) string { return fmt.Sprintf("10.9.0.%d:323", i+1) }
 func rpkiSetup(w *simWorld) error {
 	st := &rpkiState{configured: map[int]bool{}, downAt: map[int]time.Duration{}, routes: map[string]*annRoute{}, lifetime: 60}
 	w.fam = st
+	for _, p := range w.sc.Policies {
+		if p.Name == "rejinv" {
+			if err := w.assignPolicy("import", "rejinv"); err != nil {
+				return err
+			}
+			st.polActive = true
+		}
+	}
 	for i := 0; i < 2; i++ {
 		c := &simCache{w: w, idx: i, addr: cacheAddr(i), session: uint16(100 + i), serial: 1, recs: map[roaRec]bool{}, snaps: map[uint32]map[roaRec]bool{}, synced: map[roaRec]bool{}}
 		c.snaps[1] = map[roaRec]bool{}
@@ -317,6 +327,18 @@ func genRPKI(seed uint64, tier, mode string) *Script {
 	add(Op{Kind: "listen", N: 1, Arg: "accept"})
 	add(Op{Kind: "wait", N: 35000})
 	add(Op{Kind: "probe"})
+	if mode != "corrupt" && g.p(40) {
+		// an import policy that rejects Invalid routes; verdicts are compared after soft resets
+		sc.Policies = []PolicyCfg{{Name: "rejinv", RPKI: "invalid", Action: "reject"}}
+		var l []Op
+		for _, o := range ops {
+			l = append(l, o)
+			if o.Kind == "probe" && g.p(60) {
+				l = append(l, Op{Kind: "polprobe"})
+			}
+		}
+		ops = append(l, Op{Kind: "polprobe"})
+	}
 	sc.Phases = []Phase{{Ops: ops, Settle: 2, Check: true}}
 	sc.Final = pick(g, []string{"stop", "stopbgp"})
 	return sc
@@ -545,6 +567,19 @@ func rpkiOp(w *simWorld, actor int, op *Op) {
 	case "probe":
 		rpkiSettle()
 		w.rpkiCompare(st)
+	case "polprobe":
+		// policy conditions on the validation state see the same verdict: re-evaluate the import
+		// policy now (soft reset in) and compare accept/reject with RFC 6811 over the same table
+		if !st.polActive {
+			return
+		}
+		rpkiSettle()
+		err := w.s.ResetPeer(ctx, &api.ResetPeerRequest{Address: "all", Soft: true, Direction: api.ResetPeerRequest_DIRECTION_IN})
+		w.logf("soft reset in (all): %v", err)
+		rpkiSettle()
+		st.checkPol = true
+		w.rpkiCompare(st)
+		st.checkPol = false
 	default:
 		w.harnessError("rpki: unknown op %s", op.Kind)
 	}
@@ -735,6 +770,37 @@ func (w *simWorld) rpkiCompare(st *rpkiState) {
 					w.violate("C16", "validation-state", fmt.Sprintf("%s origin=%d(known=%v)", pfx, origin, ok), fmt.Sprintf("ListPath reports %s, RFC 6811 over the ROA table gives %s (table: %v)", rp.Valid, want, sortedRecs(tbl)))
 				}
 				w.probe("validated_" + strings.ToLower(strings.TrimPrefix(want, "VALIDATION_STATE_")))
+			}
+		}
+	}
+	if st.checkPol && anyCache {
+		for _, p := range w.peers {
+			if !p.isUp() {
+				continue
+			}
+			for _, fam := range []wFamily{famV4, famV6} {
+				adj, err := w.listPaths(api.TableType_TABLE_TYPE_ADJ_IN, p.cfg.Addr, fam, true)
+				if err != nil {
+					continue
+				}
+				for _, pfx := range sortedKeys(adj) {
+					for _, rp := range adj[pfx] {
+						w.mu.Lock()
+						r := w.tags[rp.Tag]
+						w.mu.Unlock()
+						if r == nil {
+							continue
+						}
+						origin, ok := routeOrigin(r.Spec, w.sc.Global.AS)
+						state := rfc6811(tbl, pfx, origin, ok)
+						wantRej := state == "VALIDATION_STATE_INVALID"
+						if rp.Filtered != wantRej {
+							w.violate("C16", "policy-verdict", fmt.Sprintf("p%d %s origin=%d", p.cfg.Idx, pfx, origin),
+								fmt.Sprintf("import policy 'reject when validation is invalid' left the route rejected=%v right after a soft reset; RFC 6811 over the ROA table gives %s (table: %v)", rp.Filtered, state, sortedRecs(tbl)))
+						}
+						w.probe("policy_verdict_checked")
+					}
+				}
 			}
 		}
 	}
